@@ -272,4 +272,186 @@ theorem armRun_lock (F : Frame inpS inpW δ) (hops : OpsSim env.ops inpS inpW δ
 
 end
 
+theorem tailRun_eoc_eq (env : Env κ) (inp : Bytes) (m : M κ) :
+    tailRun env inp eocBody m =
+      match (act env .emitText inp m).2 with
+      | some sg => ((act env .emitText inp m).1, some sg)
+      | none => breakOnEndOfInput inp (act env .emitText inp m).1 := by
+  unfold tailRun runBody eocBody runSeq
+  simp only [runCalls]
+  cases h : (act env .emitText inp m).2 <;> simp [h]
+
+section
+variable {env : Env κ} {inpS inpW : Bytes} {δ : Nat} {K : Nat → κ → κ → Prop}
+
+/-- `emit_text` in the split run only (an `eoc` arm at the end of the split input) -/
+theorem act_emitText_split (hops : OpsSim env.ops inpS inpW δ K) {d : Nat} {ab : Ab} {ms mw : M κ}
+    (h : MRel δ d 0 ab .none ms mw) (hP : ab.P = true) (hn : ab.noLex) :
+    SPanic (act env .emitText inpS ms).2 ∨ ∃ d', (act env .emitText inpS ms).2 = none ∧
+      MRel δ d' 0 ab .none (act env .emitText inpS ms).1 mw ∧ (act env .emitText inpS ms).1.c = ms.c ∧
+      (act env .emitText inpS ms).1.x.sim = ms.x.sim ∧
+      (act env .emitText inpS ms).1.x.prevConsumed = ms.x.prevConsumed ∧
+      SinkBrk env.ops inpS d d' ms.x (act env .emitText inpS ms).1.x.sink ∧ d ≤ d' := by
+  obtain ⟨hc, hr, hsim, hpc⟩ := h
+  obtain ⟨cs, rs, xs⟩ := ms
+  obtain ⟨cw, rw, xw⟩ := mw
+  cases rs with
+  | scanner ss =>
+    cases rw with
+    | lexer lw => exact hr.elim
+    | scanner sw =>
+      exact Or.inr ⟨d, rfl, ⟨hc, hr, hsim, hpc⟩, rfl, rfl, rfl, Or.inl ⟨rfl, rfl⟩, Nat.le_refl _⟩
+  | lexer ls =>
+    cases rw with
+    | scanner sw => exact hr.elim
+    | lexer lw =>
+      have hl : LexRel δ d ab cs.nextPos ls lw := hr
+      have hp := hl.p hP
+      have hsplit := hl.emitTextSplitOnly (ab' := ab) hP hn
+      show SPanic (lexEmitText env inpS cs ls xs).2 ∨ ∃ d', (lexEmitText env inpS cs ls xs).2 = none ∧
+        MRel δ d' 0 ab .none (lexEmitText env inpS cs ls xs).1 ⟨cw, .lexer lw, xw⟩ ∧ (lexEmitText env inpS cs ls xs).1.c = cs ∧
+        (lexEmitText env inpS cs ls xs).1.x.sim = xs.sim ∧ (lexEmitText env inpS cs ls xs).1.x.prevConsumed = xs.prevConsumed ∧
+        SinkBrk env.ops inpS d d' xs (lexEmitText env inpS cs ls xs).1.x.sink ∧ d ≤ d'
+      unfold lexEmitText
+      have hpos : cs.pos = cs.nextPos - 1 := rfl
+      by_cases hgt : cs.pos > ls.lexemeStart
+      · rw [if_pos hgt, lexEmitNonTag_eq]
+        rw [if_pos (by rw [← hpos]; exact hgt)] at hsplit
+        rcases hops.textOk xs.prevConsumed ⟨ls.lexemeStart, cs.pos⟩ cs.lastTextType xs.sink with hpan | hok
+        · exact Or.inl (spanic_of_epanic hpan)
+        · right
+          refine ⟨d + (cs.nextPos - 1 - ls.lexemeStart), by rw [hok]; rfl, ⟨hc, ?_, hsim, hpc⟩, rfl, rfl, rfl, ?_, Nat.le_add_right _ _⟩
+          · show LexRel δ _ ab cs.nextPos { ls with lexemeStart := cs.pos } lw
+            rw [hpos]; exact hsplit
+          · refine Or.inr ⟨ls.lexemeStart, cs.pos, cs.lastTextType, hgt, by rw [hpos], ?_⟩
+            apply Prod.ext
+            · rfl
+            · exact hok
+      · rw [if_neg hgt]
+        rw [if_neg (by rw [← hpos]; exact hgt)] at hsplit
+        have hz : cs.nextPos - 1 - ls.lexemeStart = 0 := by rw [← hpos]; omega
+        rw [hz] at hsplit
+        exact Or.inr ⟨d, rfl, ⟨hc, hsplit, hsim, hpc⟩, rfl, rfl, rfl, Or.inl ⟨rfl, rfl⟩, Nat.le_refl _⟩
+
+theorem SPanic_match {r : M κ × Option Signal} {f : M κ → M κ × Option Signal} (h : SPanic r.2) :
+    SPanic (match r.2 with | some sg => (r.1, some sg) | none => f r.1).2 := by
+  revert h
+  cases r.2 with
+  | none => intro h; exact h.elim
+  | some sg => intro h; exact h
+
+/-- **The selected arm when the split input has ended**: the split run breaks. -/
+theorem armRun_end (hops : OpsSim env.ops inpS inpW δ K)
+    {fs : FlagMap} {st : StateId} {sd : StateDef} {d : Nat} {ms mw mw0 : M κ} {npw0 : Nat}
+    (cx : StepCtx env.tbl fs st sd ms.c)
+    (arm : Arm) (harm : arm ∈ sd.arms) (hmatch : patMatches env.tbl ms.c none arm.pat = true)
+    (hrel : MRel δ d 0 (fs st).2.inStep .none ms mw) (hl : ms.c.isLast = false)
+    (hdebt : 0 < d → hasEoc sd = true) (hbp : BrkParams inpW sd δ ms mw mw0 npw0) :
+    BreakOut env.tbl fs env.ops inpS inpW δ d ms.x mw0 (armRun env inpS arm ms) := by
+  rcases patMatches_none hmatch with ⟨heoc, _⟩ | heof
+  · rw [armRun_eoc _ _ _ _ heoc]
+    have hok := cx.ok.arms arm harm
+    have hbody : arm.body = eocBody := by
+      unfold armOk at hok; rw [heoc] at hok; exact eq_of_beq hok
+    rw [hbody, tailRun_eoc_eq]
+    have heocs : hasEoc sd = true := by
+      unfold hasEoc; rw [List.any_eq_true]; exact ⟨arm, harm, by rw [heoc]; rfl⟩
+    have hnone : (fs st).2 = Ab.none := (cx.ok.debt heocs).2.1
+    have hn : (fs st).2.inStep.noLex := by rw [hnone]; exact ⟨rfl, rfl, rfl, rfl, rfl, rfl⟩
+    rcases act_emitText_split hops hrel rfl hn with hp | ⟨d', h1, h2, h3, h4, h5, h6, h7⟩
+    · exact Or.inl (SPanic_match hp)
+    · rw [h1]
+      simp only
+      have hbp' := hbp.congr (ms' := (act env .emitText inpS ms).1) (mw' := mw) h3 rfl rfl rfl
+      exact breakOut_of_split (by rw [h3]; exact cx) h2 (by rw [h3]; exact hl) (Or.inl rfl) (fun _ => heocs) npw0
+        hbp'.np hbp'.skip hbp'.c0 hbp'.x0 hbp'.r0 ms.x h4 h5 h6
+  · rw [armRun_eof _ _ _ _ heof, hl]
+    simp only [Bool.false_eq_true, if_false]
+    exact breakOut_of_split cx hrel hl (Or.inl rfl) hdebt npw0 hbp.np hbp.skip hbp.c0 hbp.x0 hbp.r0 ms.x rfl rfl
+      (Or.inl ⟨rfl, rfl⟩)
+
+end
+
+section
+variable {env : Env κ} {inpS inpW : Bytes} {δ : Nat} {K : Nat → κ → κ → Prop}
+
+/-- after the sequence arms: the ordinary arm, in lock-step -/
+theorem dispatch_tail_lock (F : Frame inpS inpW δ) (hops : OpsSim env.ops inpS inpW δ K)
+    {fs : FlagMap} {st : StateId} {sd : StateDef} {d : Nat} {ms mw ms2 mw2 : M κ} (cx : StepCtx env.tbl fs st sd ms.c)
+    (ch : Option UInt8) (hs : runSeqArms env inpS ch sd.arms ms = .inr ms2) (hw : runSeqArms env inpW ch sd.arms mw = .inr mw2)
+    (hrel : MRel δ d 0 (fs st).2.inStep .none ms2 mw2) (hcs : ms2.c = ms.c) (hxs : ms2.x = ms.x) (hxw : mw2.x = mw.x)
+    (hK : K d ms.x.sink mw.x.sink) (hdebt : 0 < d → hasEoc sd = true)
+    (hchin : ch.isSome = true → ms.c.nextPos ≤ inpS.length) (hcl : ch = none → Closed inpS inpW δ) :
+    LockOut env.tbl fs inpW δ K (dispatch env inpS ch sd.arms ms) (dispatch env inpW ch sd.arms mw) := by
+  rw [dispatch_inr hs, dispatch_inr hw]
+  rw [findArm_congr env.tbl hrel.c.closingQuote hrel.c.isLast ch sd.arms]
+  cases hfa : findArm env.tbl ms2.c ch sd.arms with
+  | none => exact Or.inl trivial
+  | some arm =>
+    obtain ⟨hmem, hpm⟩ := findArm_spec env.tbl ms2.c ch sd.arms arm hfa
+    simp only
+    exact armRun_lock F hops (by rw [hcs]; exact cx) ch arm hmem hpm hrel (by rw [hxs, hxw]; exact hK) hdebt
+      (by rw [hcs]; exact hchin) hcl
+
+/-- **`dispatch`, both runs reading the same consumed byte.** -/
+theorem dispatch_lock (F : Frame inpS inpW δ) (hops : OpsSim env.ops inpS inpW δ K)
+    {fs : FlagMap} {st : StateId} {sd : StateDef} {d : Nat} {sm : SeqMode} {ms mw mw0 : M κ} {npw0 : Nat}
+    (cx : StepCtx env.tbl fs st sd ms.c) (ch : Option UInt8)
+    (hrel : MRel δ d 0 (fs st).2.inStep sm ms mw) (hK : K d ms.x.sink mw.x.sink)
+    (hsm : sm = .none ∨ (sm = .stale ∧ hasSeq sd = true)) (hdebt : 0 < d → hasEoc sd = true)
+    (hchin : ch.isSome = true → ms.c.nextPos ≤ inpS.length) (hil : ms.c.isLast = true → Closed inpS inpW δ)
+    (hcl : ch = none → Closed inpS inpW δ) (hbp : BrkParams inpW sd δ ms mw mw0 npw0) :
+    LockOut env.tbl fs inpW δ K (dispatch env inpS ch sd.arms ms) (dispatch env inpW ch sd.arms mw) ∨
+    (¬ Closed inpS inpW δ ∧ BreakOut env.tbl fs env.ops inpS inpW δ d ms.x mw0 (dispatch env inpS ch sd.arms ms)) := by
+  by_cases hd0 : d = 0
+  · subst hd0
+    have h := runSeqArms_lock F hops ch sd.arms (fun a ha => ha) cx hrel hK hsm hchin hil hbp
+    cases hr : runSeqArms env inpS ch sd.arms ms with
+    | inr ms2 =>
+      rw [hr] at h
+      obtain ⟨mw2, e1, e2, e3, e4, e5, e6, e7⟩ := h
+      exact Or.inl (dispatch_tail_lock F hops cx ch hr e1 e2 e3 e4 e6 hK hdebt hchin hcl)
+    | inl rs =>
+      rw [hr] at h
+      rw [dispatch_inl hr]
+      rcases h with ⟨rw', e1, e2⟩ | ⟨e1, e2⟩
+      · rw [dispatch_inl e1]; exact Or.inl e2
+      · exact Or.inr ⟨e1, e2⟩
+  · have hpos := Nat.pos_of_ne_zero hd0
+    have hns : hasSeq sd = false := (cx.ok.debt (hdebt hpos)).2.2.2.1
+    have hsm0 : sm = .none := by
+      rcases hsm with h | ⟨_, h⟩
+      · exact h
+      · rw [hns] at h; cases h
+    subst hsm0
+    exact Or.inl (dispatch_tail_lock F hops cx ch (runSeqArms_noSeq inpS ch sd.arms ms hns)
+      (runSeqArms_noSeq inpW ch sd.arms mw hns) hrel rfl rfl rfl hK hdebt hchin hcl)
+
+/-- **`dispatch` when the split input has ended** and the whole input has not: the split run breaks. -/
+theorem dispatch_end (hops : OpsSim env.ops inpS inpW δ K)
+    {fs : FlagMap} {st : StateId} {sd : StateDef} {d : Nat} {sm : SeqMode} {ms mw mw0 : M κ} {npw0 : Nat}
+    (cx : StepCtx env.tbl fs st sd ms.c)
+    (hrel : MRel δ d 0 (fs st).2.inStep sm ms mw)
+    (hsm : sm = .none ∨ (sm = .stale ∧ hasSeq sd = true)) (hdebt : 0 < d → hasEoc sd = true)
+    (hl : ms.c.isLast = false) (hbp : BrkParams inpW sd δ ms mw mw0 npw0) :
+    BreakOut env.tbl fs env.ops inpS inpW δ d ms.x mw0 (dispatch env inpS none sd.arms ms) := by
+  have h := runSeqArms_end (inpS := inpS) sd.arms (fun a ha => ha) cx hrel hsm hl hdebt hbp
+  cases hr : runSeqArms env inpS none sd.arms ms with
+  | inl rs => rw [hr] at h; rw [dispatch_inl hr]; exact h
+  | inr ms2 =>
+    rw [hr] at h
+    obtain ⟨mw2, e2, e3, e4, e5, e6, e7⟩ := h
+    rw [dispatch_inr hr]
+    cases hfa : findArm env.tbl ms2.c none sd.arms with
+    | none => exact Or.inl trivial
+    | some arm =>
+      obtain ⟨hmem, hpm⟩ := findArm_spec env.tbl ms2.c none sd.arms arm hfa
+      simp only
+      have := armRun_end hops (ms := ms2) (mw := mw2) (mw0 := mw0) (npw0 := npw0) (by rw [e3]; exact cx) arm hmem hpm e2
+        (by rw [e3]; exact hl) hdebt (hbp.congr e3 e5 e6 e7)
+      rw [e4] at this
+      exact this
+
+end
+
 end LolHtml.Model.Chunk
